@@ -30,7 +30,8 @@ RULE = ("cases = way of leaving {DISCONNECT, FIN, RST, FIN/RST after every byte 
 ASSUMPTIONS = ["CLIENT_CLOSED is matched to the departed connection by the client address/port it carries",
                "for a client that closed with FIN, a write by the manager before it services the EOF may succeed or fail",
                "harness clients are drained; every surviving connection is writable"]
-REQUIRE = {"departures": 150, "client_closed_matched": 150, "reconnects_checked": 60, "probe_deliveries_checked": 150}
+REQUIRE = {"departures": 150, "client_closed_matched": 150, "reconnects_checked": 60, "probe_deliveries_checked": 150,
+           "timing_pid_tables_checked": 100}
 CASE_TIMEOUT = 60
 T, T2 = 1234, 4321
 FRAME_LEN = {"pub": 48 + 16, "sub": 48 + 4, "hello": 48 + 44}
@@ -62,7 +63,7 @@ def dep_steps(L, idn, name, d, tcode):
         # subscribes without ever completing CONNECT (the manager accepts SUBSCRIBE on any accepted socket)
         setup += [["drain"], ["sub", L, ALL if stage == "accepted_suball" else T]]
     elif stage != "accepted":
-        setup.append(["hello", L, {"mod_id": idn, "name": name, "logger": int(stage == "logger")}])
+        setup.append(["hello", L, {"mod_id": idn, "name": name, "logger": int(stage == "logger"), "pid": 7000 + idn}])
         setup.append(["drain"])
         if stage in ("sub", "paused"):
             setup.append(["sub", L, T])
@@ -103,6 +104,8 @@ def build(c):
              ["open", "S"], ["hello", "S", {"mod_id": 12, "name": "surv"}], ["drain"],
              ["sub", "M", W.MT_CLIENT_CLOSED], ["sub", "M", W.MT_CLIENT_INFO], ["sub", "M", W.MT_FAILED_MESSAGE],
              ["sub", "S", T], ["drain"]]
+    if c.get("tm"):
+        steps += [["sub", "M", W.MT_TIMING], ["drain"]]
     deps = [("D", 20, "dd", c["d1"])] + ([("E", 21, "ee", c["d2"])] if c.get("d2") else [])
     leaves, excluded = [], []
     for L, idn, name, d in deps:
@@ -111,6 +114,10 @@ def build(c):
         leaves += leave
         if excl:
             excluded.append(L)
+    if c.get("tm"):
+        # one statistics report while the clients that are about to leave are still connected
+        # (P sends a request in that round: the manager refreshes its writability snapshot only in rounds with input)
+        steps += [["sub", "P", 556], ["round", {"only": ["P"], "adv": 1.5}], ["drain", {"adv": 0.001}]]
     steps += leaves
     if c["trigger"] == "pub":
         steps.append(["pub", "P", T, 0, 0, 16])
@@ -121,6 +128,9 @@ def build(c):
     steps.append(["round", {"only": labels, "order": list(perm), "adv": 0.001}])
     steps.append(["drain", {"adv": 0.001}])
     steps.append(["mark_departed"])
+    if c.get("tm"):
+        # a statistics report after the departure and before anybody re-uses the ids
+        steps += [["sub", "P", 558], ["round", {"only": ["P"], "adv": 1.5}], ["drain", {"adv": 0.001}]]
     # immediate reconnects with the same id and name
     for L, idn, name, d in deps:
         if d["way"] == "refused_range":
@@ -128,7 +138,7 @@ def build(c):
         rid = 12 if d["way"] == "refused_dup" else idn
         if d["way"] in ("refused_dup", "refused_name"):
             continue  # id/name belong to the incumbent; the incumbent is probed below instead
-        steps += [["open", "R" + L], ["hello", "R" + L, {"mod_id": rid, "name": name}]]
+        steps += [["open", "R" + L], ["hello", "R" + L, {"mod_id": rid, "name": name, "pid": 8000 + idn}]]
     steps.append(["drain", {"adv": 0.001}])
     for L, idn, name, d in deps:
         if not d["way"].startswith("refused"):
@@ -136,6 +146,8 @@ def build(c):
     steps.append(["drain"])
     steps += [["pub", "P", T, 0, 0, 8], ["pub", "P", T2, 0, 0, 8], ["pub", "P", T, "@S", 0, 8], ["pub", "P", 999, 0, 0, 0],
               ["drain", {"adv": 0.001}]]
+    if c.get("tm"):
+        steps += [["sub", "P", 557], ["round", {"only": ["P"], "adv": 1.5}], ["drain", {"adv": 0.001}]]
     return steps
 
 
@@ -188,6 +200,7 @@ def gen_cases(tier, seed):
              "trigger": rng.choice(["pub", "ctl"])})
     for i, c in enumerate(cases):
         c["tc"] = i % 6 == 5
+        c["tm"] = i % 3 == 1
     return cases
 
 
@@ -224,6 +237,27 @@ def judge(sc, c, n_before):
     deps = [("D", 20, "dd", c["d1"])] + ([("E", 21, "ee", c["d2"])] if c.get("d2") else [])
     closed = [W.unpack_client(f.payload) for f in rx["M"]["frames"] if f.msg_type == W.MT_CLIENT_CLOSED and len(f.payload) == 80]
     infos = [W.unpack_client(f.payload) for f in rx["M"]["frames"] if f.msg_type == W.MT_CLIENT_INFO and len(f.payload) == 80]
+    if c.get("tm"):
+        # the process-id table of the last statistics report lists connected modules only
+        tms = [f for f in rx["M"]["frames"] if f.msg_type == W.MT_TIMING and f.src_mod == 0 and len(f.payload) == W.TIMING_SIZE]
+        if len(tms) == 3:
+            import struct as _st
+            live = {}
+            for m in sc.model.mods.values():
+                if m.connected and 0 < m.mod_id < 200 and not m.fin:
+                    live.setdefault(m.mod_id, set()).add(m.pid)
+            # report 2: after the departure, before the ids are re-used; report 3: at the end
+            gone = {idn for L, idn, name, d in [("D", 20, "dd", c["d1"])] + ([("E", 21, "ee", c["d2"])] if c.get("d2") else [])}
+            for which, tm_, absent in (("before the ids were re-used", tms[1], gone), ("at the end", tms[2], set(range(1, 200)) - set(live))):
+                pids = _st.unpack_from("<200i", tm_.payload, 20000)
+                C["timing_pid_tables_checked"] = C.get("timing_pid_tables_checked", 0) + 1
+                bad = [(i, pids[i]) for i in sorted(absent) if 0 < i < 200 and pids[i]]
+                if bad:
+                    V.append({"mech": "pid_of_departed_module_still_reported",
+                              "detail": f"TIMING_MESSAGE after the departure ({which}): ModulePID{bad[:4]} although no connected module holds that id"})
+                    break
+        else:
+            res["inconclusive"] = f"expected three TIMING reports at the monitor, saw {len(tms)}"
     for L, idn, name, d in deps:
         cs = sc.cl[L]
         C["departures"] = C.get("departures", 0) + 1
